@@ -355,7 +355,8 @@ fn cancel_mid_publish(r: &mut Rng, res: &mut CaseResult) {
         .map(|i| {
             let mut p = gen_pubs(r, &format!("big{}", i), 1, fm, false).remove(0);
             p.via = 0;
-            let len = r.usize(300, 1500) * (fm as usize - 8) + r.usize(0, 4000);
+            // (a third of the bodies end exactly with a full frame)
+            let len = r.usize(300, 1500) * (fm as usize - 8) + if r.chance(1, 3) { 0 } else { r.usize(0, 4000) };
             p.body = r.bytes(len);
             p
         })
